@@ -115,9 +115,9 @@ M("C05-R1-dispatch", "C05", [(U, "if field.contains_numeric() {\n            com
 M("C05-R1-cmp-skips-first", "C05", [(U, "for i in 0..(self.values.len().min(other.values.len())) {", "for i in 1..(self.values.len().min(other.values.len())) {")], ["cmp_lexicographic"])
 M("C05-R2-uid-not-numeric", "C05", [("src/field.rs", "            | Field::Uid | Field::Gid\n", "            | Field::Gid\n")], ["key-typing_Uid"])
 M("C05-R2-length-not-numeric", "C05", [(F, "            Function::Length\n                | Function::Random", "            Function::Random")], ["key-typing_function_Length"])
-M("C05-R3-positional-off", "C05", [(P, "Ok(idx) => fields[idx - 1].clone(),", "Ok(idx) => fields[idx].clone(),")], ["positional"])
+M("C05-R3-positional-off", "C05", [(P, "Ok(idx) => match idx.checked_sub(1).and_then(|i| fields.get(i)) {", "Ok(idx) => match idx.checked_sub(0).and_then(|i| fields.get(i)) {")], ["positional"])
 M("C05-R3-default-desc", "C05", [(P, "order_by_directions.push(true);", "order_by_directions.push(false);")], ["pairing"])
-M("C05-R3-desc-first", "C05", [(P, "order_by_directions[cnt - 1] = false;", "order_by_directions[0] = false;")], ["parse_order_by_desc"])
+M("C05-R3-desc-first", "C05", [(P, "match order_by_directions.last_mut() {", "match order_by_directions.first_mut() {")], ["parse_order_by_desc"])
 M("C05-R4-values-reversed", "C05", [(T, "self.echelons\n            .values()\n            .flat_map", "self.echelons\n            .values()\n            .rev()\n            .flat_map")], ["values-order"])
 M("C06-R1-evict-ge", "C06", [(T, "if limit < self.count {", "if limit <= self.count {")], ["eviction-test"])
 M("C06-R1-victim-first", "C06", [(T, "self.echelons.iter().next_back().unwrap()", "self.echelons.iter().next().unwrap()")], ["victim-side"])
@@ -164,7 +164,7 @@ M("C16-R4-arg-not-evaluated", "C16", [(S, "                    let arg_value =\n
 # ---------------------------------------------------------------- C01
 M("C01-R1-min-gate-strict", "C01", [(S, "if min_depth == 0 || depth >= min_depth {", "if min_depth == 0 || depth > min_depth {")], ["depth_report-gate"])
 M("C01-R1-max-gate-le", "C01", [(S, "if max_depth == 0 || depth < max_depth {", "if max_depth == 0 || depth <= max_depth {")], ["depth_descend-gate"])
-M("C01-R1-depth-no-plus-one", "C01", [(S, "let depth = canonical_depth - base_depth + 1;", "let depth = canonical_depth - base_depth;")], ["depth_"])
+M("C01-R1-depth-no-plus-one", "C01", [(S, "let depth = canonical_depth.saturating_sub(base_depth) + 1;", "let depth = canonical_depth.saturating_sub(base_depth);")], ["depth_"])
 M("C01-R1-calc-depth-dot", "C01", [(U, 's.matches("/").count() as u32', 's.matches(".").count() as u32')], ["calc_depth"])
 M("C01-R2-skip-dotfiles", "C01", [(S, "                            if pass_ignores {\n                                if min_depth == 0", "                            if pass_ignores && !entry.file_name().to_string_lossy().starts_with('.') {\n                                if min_depth == 0")], ["skip_guard"])
 M("C01-R2-continue-on-special", "C01", [(S, "                        Ok(entry) => {\n                            let mut path = entry.path();", "                        Ok(entry) => {\n                            if entry.file_type().map(|t| !t.is_file() && !t.is_dir() && !t.is_symlink()).unwrap_or(false) {\n                                continue;\n                            }\n                            let mut path = entry.path();")], ["skip_early-exit"])
